@@ -627,19 +627,28 @@ fn c03_pkt_header_initial_real() {
     p_header_initial::<40>();
 }
 
+// (the packet type is CONCRETE per harness: with a symbolic type be_header's dispatch explores all six
+// header kinds, 27 k -> 718 k SSA steps)
 #[kani::proof]
 #[kani::stub(core::slice::index::slice_index_fail, stub_slice_index_fail)]
 #[kani::unwind(6)]
-fn c03_pkt_header_zero_rtt_handshake() {
-    p_header_plain::<32>(if kani::any() { 1 } else { 2 });
+fn c03_pkt_header_zero_rtt() {
+    p_header_plain::<32>(1);
+}
+
+#[kani::proof]
+#[kani::stub(core::slice::index::slice_index_fail, stub_slice_index_fail)]
+#[kani::unwind(6)]
+fn c03_pkt_header_handshake() {
+    p_header_plain::<32>(2);
 }
 
 /// thorough: both cids at full length plus trailing bytes
 #[kani::proof]
 #[kani::stub(core::slice::index::slice_index_fail, stub_slice_index_fail)]
 #[kani::unwind(6)]
-fn c03_pkt_header_zero_rtt_handshake_n44() {
-    p_header_plain::<44>(if kani::any() { 1 } else { 2 });
+fn c03_pkt_header_handshake_n44() {
+    p_header_plain::<44>(2);
 }
 
 #[kani::proof]
